@@ -140,6 +140,7 @@ type G struct {
 	arrived    int64
 	stamped    bool
 	wasBlocked bool // found blocked inside its operation by the scheduler
+	lazy       bool // scheduled only when no non-lazy goroutine is enabled (Config.Lazy)
 	spawned    int
 	exec       *Exec
 }
@@ -196,6 +197,8 @@ type Exec struct {
 	panicVal      string
 	spawnCount    int
 	mapDescending bool
+	lazyNames     []string
+	spawnByName   map[string]int
 	exitedKey     uint64 // state-key contribution of goroutines that have exited (removed from gs)
 	CollectKeys   bool
 	invariant     func() string // evaluated by the scheduler in every quiescent state
@@ -348,6 +351,18 @@ func (e *Exec) spawn(parent *G, pos string, fn func()) *G {
 		g.hash = hstr(pos)
 	}
 	g.pathH = hstr(g.path)
+	if len(e.lazyNames) > 0 {
+		if e.spawnByName == nil {
+			e.spawnByName = map[string]int{}
+		}
+		k := e.spawnByName[pos]
+		e.spawnByName[pos] = k + 1
+		for _, ln := range e.lazyNames {
+			if ln == pos || ln == fmt.Sprintf("%s#%d", pos, k) {
+				g.lazy = true
+			}
+		}
+	}
 	g.state = gAtPoint
 	g.op = &op{kind: OpStart, pos: pos, ph: hstr(pos)}
 	e.gs = append(e.gs, g)
@@ -522,6 +537,9 @@ func (e *Exec) collect() []candidate {
 		}
 	}
 	sort.Slice(gs, func(i, j int) bool {
+		if gs[i].lazy != gs[j].lazy {
+			return !gs[i].lazy
+		}
 		if (gs[i] == e.lastRun) != (gs[j] == e.lastRun) {
 			return gs[i] == e.lastRun
 		}
@@ -781,6 +799,7 @@ func RunOnce(t *testing.T, s Strategy, cfg Config, body func()) *Result {
 			TraceOn:     cfg.Trace,
 			CollectKeys: cfg.Keys,
 			TimeJumps:   cfg.TimeJumps,
+			lazyNames:   cfg.Lazy,
 		}
 		if e.MaxSteps == 0 {
 			e.MaxSteps = 200000
@@ -825,4 +844,9 @@ type Config struct {
 	Trace     bool
 	Keys      bool
 	TimeJumps bool
+	// Lazy names goroutines (spawn position, optionally with "#<k>" = k-th goroutine spawned at that
+	// position, counting from 0) that the canonical schedule runs only when nothing else is enabled: a
+	// different zero-deviation schedule (a slow worker), not a restriction — every other order is still
+	// reachable by deviations.
+	Lazy []string
 }
